@@ -212,6 +212,22 @@ func init() {
 				GlobalKeys: []string{"timeout-client"}, InitialGlobal: capGlobals(r), MinOps: mn, MaxOps: mx, QuiesceEvery: 3, KeysPerRun: 3, W: w, NoForeignClass: true})
 			return rc
 		}})
+	// the same with service backed external authentication: the auth proxy is released and taken again by
+	// every partial sync that rebuilds its target
+	register(&Profile{Name: "quiet-renotify-auth", Prop: "C11", Weight: 1,
+		Oracles: OracleSet{Property: "C11", NoReload: true},
+		Build: func(seed uint64, tier string) *RunConfig {
+			r := cfgRng(seed)
+			mn, mx := tierOps(tier, 8, 24)
+			ctl := sampleCtl(r)
+			rc := &RunConfig{Property: "C11", Profile: "quiet-renotify-auth", Seed: seed, Ctl: ctl, MapOrder: r.IntN(2) == 0, Lagfree: r.IntN(2) == 0, MidSched: r.IntN(2) == 0}
+			w := map[string]int{"renotify": 20, "advance": 4, "neutral_update": 12}
+			rc.World, rc.Ops = GenerateRun(seed, GenOptions{Sparse: true, IngressKeys: []string{"auth-url", "auth-external-placement", "balance-algorithm"}, ForceIngressKeys: []string{"auth-url"},
+				ValueOverrides: map[string][]string{"auth-url": {"svc://s1:8080", "svc://s1:8080/check", "svc://a/s2:8080", "svc://s2:8080", "svc://b/s3:8081", "http://10.9.9.9:8000/auth"}},
+				InitialGlobal:  map[string]string{"external-has-lua": "true", "auth-proxy": "_front__auth:14415-14440"}, AnnChance: 1,
+				MinOps: mn, MaxOps: mx, QuiesceEvery: 4, KeysPerRun: 3, W: w, NoForeignClass: true})
+			return rc
+		}})
 	register(&Profile{Name: "quiet-renotify", Prop: "C11", Weight: 1,
 		Oracles: OracleSet{Property: "C11", NoReload: true},
 		Build: func(seed uint64, tier string) *RunConfig {
